@@ -66,7 +66,10 @@ def generate(prop, rng):
                            at_dir=rng.random() < 0.6, at=rng.randrange(5), view=rng.random() < 0.6)
     return {
         "prop": prop,
-        "cfg": {"sqlite": rng.random() < 0.35, "reflink": "enotsup", "tick_ns": 1_000_000},
+        "cfg": {"sqlite": rng.random() < 0.35, "reflink": "enotsup", "tick_ns": 1_000_000,
+                # cache + remote storage; part of the file objects were collected from the cache after its
+                # existence index had recorded them (the adaptor must serve them from the remote)
+                "split": rng.random() < 0.3, "split_seed": rng.randrange(10**6)},
         "contents": [gen.enc(b) for b in pool], "dirobjs": dirobjs, "files": files, "ops": ops,
     }
 
@@ -186,13 +189,29 @@ def execute(sc, ctx):
     for key, (doid, dbytes, _) in dobjs.items():
         w.raw_add("cache", "local", doid, dbytes)
 
+    split = bool(sc["cfg"].get("split"))
+    cache_exist_index = DataIndex() if split else None
+    if split:
+        odb_remote = w.odb("remote-store", "local")
+        for oid, data in by_oid.items():
+            w.raw_add("remote-store", "local", oid, data)
+        for key, (doid, dbytes, _) in dobjs.items():
+            w.raw_add("remote-store", "local", doid, dbytes)
+
+    def attach(idx):
+        if split:
+            idx.storage_map.add_cache(ObjectStorage((), odb, index=cache_exist_index))
+            idx.storage_map.add_remote(ObjectStorage((), odb_remote))
+        else:
+            idx.storage_map.add_cache(ObjectStorage((), odb))
+
     def new_index(name):
         if sc["cfg"]["sqlite"]:
             w.mkdirs(w.p("idx"))
             idx = DataIndex.open(w.p("idx", name + ".db"))
         else:
             idx = DataIndex()
-        idx.storage_map.add_cache(ObjectStorage((), odb))
+        attach(idx)
         return idx
 
     L = new_index("L")
@@ -212,6 +231,17 @@ def execute(sc, ctx):
     if sc["cfg"]["sqlite"]:
         L.commit()
         E.commit()
+    if split:
+        import random as _random
+
+        cst = ObjectStorage((), odb, index=cache_exist_index)
+        er = _random.Random(sc["cfg"].get("split_seed", 0))
+        for oid in sorted(by_oid):
+            cst.exists(DataIndexEntry(key=("x",), hash_info=HashInfo("md5", oid)), refresh=True)
+        for oid in sorted(by_oid):
+            if er.random() < 0.6:
+                w.raw_rm("cache", "local", oid)
+                ctx.probe("file_object_collected_from_cache_after_indexing")
     keys = sorted(F)
     dirkeys = [()] + [k for k in keys if F[k][0] == "dir"]
     filekeys = [k for k in keys if F[k][0] == "file"]
@@ -400,7 +430,7 @@ def execute(sc, ctx):
                 L.commit()
                 L.close()
                 L = DataIndex.open(w.p("idx", "L.db"))
-                L.storage_map.add_cache(ObjectStorage((), odb))
+                attach(L)
                 ctx.probe("sqlite_reopened")
             continue
         if op["op"] == "crash_load":
@@ -429,7 +459,7 @@ def execute(sc, ctx):
 
                         SQLiteTrie.__setitem__ = dying_set
                         C = DataIndex.open(w.p("idx", "L.db"))
-                        C.storage_map.add_cache(ObjectStorage((), odb))
+                        attach(C)
                         how = op.get("how", "load")
                         dk = pick(sorted(dobjs), op["r"])
                         if how == "load":
@@ -452,7 +482,7 @@ def execute(sc, ctx):
                 elif code != 0:
                     raise HarnessError(f"crash_load child failed with {code}")
                 L = DataIndex.open(w.p("idx", "L.db"))
-                L.storage_map.add_cache(ObjectStorage((), odb))
+                attach(L)
             continue
         if op["op"] == "evict_restore":
             # the directory object is not in storage yet when first accessed (error
@@ -489,7 +519,12 @@ def execute(sc, ctx):
         if post and not pre:
             load_triggered = True
         want = expect(op)
-        if want is not None and gotE[:2] != want[:2]:
+        if want is not None and gotE[:2] != want[:2] and op["op"] in ("fs_open", "fs_find", "view_fs_find"):
+            # the adaptor over the EXPLICIT index disagrees with the bytes / paths held in storage: that
+            # is the property's last clause, not a modelling problem
+            ctx.violate("adaptor-differs-from-storage", f"{op['op']}:explicit-index:{gotE[1] if gotE[0] == 'raised' else 'answer'}",
+                        f"op{n} {op}: E={str(gotE)[:200]} model={str(want)[:120]}")
+        elif want is not None and gotE[:2] != want[:2]:
             raise HarnessError(f"model disagrees with the EXPLICIT index on op{n} {op}: E={gotE!r} model={want!r}")
         k = op["op"]
         state = "unloaded" if not pre else "loaded"
